@@ -609,14 +609,19 @@ func TestC03_HelperMatrix(t *testing.T) {
 // helpers special-case (embedded DHCPv4 message, vendor class + enterprise client id, IA with addresses and a
 // compressed search list, vendor options + EUI-64 link-layer address), with and without per-level options.
 func TestC03_DeepRelay(t *testing.T) {
-	for _, inner := range deepInners() {
+	for ii, inner := range deepInners() {
 		for _, d := range deepDepths() {
 			for _, opts := range []bool{false, true} {
-				b := deepRelay(d, inner, opts)
-				if len(b) > 4096 {
-					continue
+				for hop := 0; hop <= 4; hop++ {
+					if hop > 0 && (ii > 1 || opts || !(d <= 3 || d%8 == 0 || (d >= 30 && d <= 36) || d >= 63)) {
+						continue // dishonest hop counts at the depths where a fixed-size table would end
+					}
+					b := deepRelayHops(d, inner, opts, hop)
+					if len(b) > 4096 {
+						continue
+					}
+					c03.one(t, c03Case{Entry: "v6", B: b})
 				}
-				c03.one(t, c03Case{Entry: "v6", B: b})
 			}
 		}
 	}
